@@ -50,6 +50,10 @@ INTEGER_decode_oer(const asn_codec_ctx_t *opt_codec_ctx,
         rval.consumed += consumed;
         ptr = (const char *)ptr + consumed;
         size -= consumed;
+        if(req_bytes == 0) {
+            /* X.696 10.2: the contents are at least one octet long */
+            ASN__DECODE_FAILED;
+        }
     }
 
     if(req_bytes > size) {
